@@ -491,7 +491,7 @@ func init() {
 		Rule: "tokens: exhaustively all sequences of up to 5 (quick) / 6 (thorough) lexer-significant blocks from {{ }} {% %} {# #} - space LF a 1 \" ' \\ | . é {% verbatim %} {% endverbatim %}, plus random layouts; every token's (line, col) must be the byte (or rune) position at which its raw text starts in the source. " +
 			"errors: 42 kinds of deliberately broken programs (compile and execution errors) in random multi-line/CRLF/multi-byte layouts, as the top-level source or inside an included, extended or imported file: every compile error names a template involved, every position lies in the named source and the token text is found there; " +
 			"shift: inserting a lines and b columns of plain text shifts the reported position by exactly (a, b). distinct_nontrivial = distinct multi-token sources lexed plus distinct broken programs judged.",
-		MinNontriv: 5000,
+		MinNontriv:  5000,
 		Assumptions: []string{"columns may be byte- or rune-based (both accepted)", "known finding quarantine: for errors of sender 'fromfile' that carry the referring tag's position the position is checked against the referring template (see KNOWN_FINDINGS.txt)"},
 	})
 }
